@@ -1734,6 +1734,20 @@ func (lc *LightningChannel) restoreStateLogs(
 		lc.updateLogs.Local.restoreHtlc(&htlc)
 	}
 
+	// Restore unsigned acked local log updates so we expect the peer to
+	// sign for them.
+	//
+	// NOTE: These updates are already part of the remote commitment, so
+	// they always precede the updates of a dangling commit restored below.
+	// They must be restored first to keep the local log in index order, as
+	// the last fee update found in the log is the one that is applied.
+	err := lc.restorePeerLocalUpdates(
+		remoteUnsignedLocalUpdates, remoteCommitment.height,
+	)
+	if err != nil {
+		return err
+	}
+
 	// If we have a dangling (un-acked) commit for the remote party, then we
 	// restore the updates leading up to this commit.
 	if pendingRemoteCommit != nil {
@@ -1747,18 +1761,9 @@ func (lc *LightningChannel) restoreStateLogs(
 
 	// Restore unsigned acked remote log updates so that we can include them
 	// in our next signature.
-	err := lc.restorePendingRemoteUpdates(
+	return lc.restorePendingRemoteUpdates(
 		unsignedAckedUpdates, localCommitment.height,
 		pendingRemoteCommit,
-	)
-	if err != nil {
-		return err
-	}
-
-	// Restore unsigned acked local log updates so we expect the peer to
-	// sign for them.
-	return lc.restorePeerLocalUpdates(
-		remoteUnsignedLocalUpdates, remoteCommitment.height,
 	)
 }
 
